@@ -252,6 +252,14 @@ func (x *Exec) evalUnary(st *State, e *ast.UnaryExpr, want int) T {
 			ref := x.alloc(st, "lit")
 			x.storeThrough(st, ref, t, v)
 			st.assume(eq(app("dyntype", ref), fmt.Sprint(x.d.typeID(types.NewPointer(t)))))
+			// a type with representation invariants must satisfy them where it is created
+			if ts := x.typeSpecOf(t); ts != nil && len(ts.Invariants) > 0 && x.opts["partial-init"] == "" {
+				owner := T{S: ref, Ty: types.NewPointer(t)}
+				for k, inv := range ts.Invariants {
+					me := x.monitorEnv(st, t, &owner)
+					x.oblige(st, fmt.Sprintf("typeinv:%s#%d@new%d", ts.Name, k+1, x.ordinal("new:"+ts.Name)), "typeinv", x.specEval(st, inv.Expr, me).S, in)
+				}
+			}
 			return T{S: ref, Ty: types.NewPointer(t)}
 		case *ast.Ident:
 			o := x.info().ObjectOf(in)
